@@ -158,6 +158,44 @@ pub fn run_all(inp: &Inputs, reps: usize) -> Vec<(String, String)> {
                 }
             }
         }
+        // error lists and other order-carrying outputs: one member conflicting with several later members, several defective holes
+        {
+            use geo::algorithm::Validation;
+            let bar = sq(0.0, 0.0, 1.0);
+            let bar = Polygon::new(LineString::from(vec![(0.0, 0.0), (20.0, 0.0), (20.0, 1.0), (0.0, 1.0), (0.0, 0.0)]), vec![]);
+            let mut members = vec![bar];
+            for i in 0..8 {
+                // posts crossing the bar (overlap) and posts standing on it (touch on a line), alternating
+                let x = 1.0 + 2.0 * i as f64;
+                let (y0, y1) = if i % 2 == 0 { (-1.0, 2.0) } else { (1.0, 3.0) };
+                members.push(Polygon::new(LineString::from(vec![(x, y0), (x + 1.0, y0), (x + 1.0, y1), (x, y1), (x, y0)]), vec![]));
+            }
+            let mp = MultiPolygon(members);
+            rec(format!("validation_errors|bar-and-posts|rep{}", rep), format!("{:?} {:?}", mp.validation_errors(), mp.check_validation()));
+            let holes: Vec<LineString<f64>> = (0..6).map(|i| { let x = 1.0 + 3.0 * i as f64; LineString::from(vec![(x, -1.0), (x + 1.0, -1.0), (x + 1.0, 0.5), (x, 0.5), (x, -1.0)]) }).collect();
+            let pg = Polygon::new(LineString::from(vec![(0.0, 0.0), (20.0, 0.0), (20.0, 1.0), (0.0, 1.0), (0.0, 0.0)]), holes);
+            rec(format!("validation_errors|defective-holes|rep{}", rep), format!("{:?} {:?}", pg.validation_errors(), pg.check_validation()));
+            let gc = GeometryCollection(vec![Geometry::MultiPolygon(mp.clone()), Geometry::Polygon(pg.clone()), Geometry::Line(Line::new((0.0, 0.0), (0.0, 0.0)))]);
+            rec(format!("validation_errors|collection|rep{}", rep), format!("{:?}", gc.validation_errors()));
+        }
+        // a prepared outlier detector queried with a sequence of k values: the same k on a fresh detector ("rep0") and after other k's ("rep1")
+        if rep == 0 {
+            for (name, pts) in &inp.points {
+                let ks = [3usize, 7, 2, 5];
+                for (i, &k) in ks.iter().enumerate() {
+                    let fresh = pts.prepared_detector();
+                    rec(format!("prepared_detector.outliers(k) fresh vs after other k|{}|k{}|rep0", name, k), format!("{:?}", fresh.outliers(k)));
+                    let used = pts.prepared_detector();
+                    for (j, &k2) in ks.iter().enumerate() {
+                        if j != i {
+                            let _ = used.outliers(k2);
+                        }
+                    }
+                    rec(format!("prepared_detector.outliers(k) fresh vs after other k|{}|k{}|rep1", name, k), format!("{:?}", used.outliers(k)));
+                }
+                rec(format!("outlier ensembles|{}|rep0", name), format!("{:?} {:?} {:?}", pts.generate_ensemble(2..=5), pts.ensemble_min(2..=5), pts.ensemble_max(2..=5)));
+            }
+        }
         // scalar measures and reductions over collections with many members (a parallel or reordered reduction shows in the low bits)
         for (n, (mp, mls, mpt)) in &many {
             use geo::algorithm::line_measures::{Euclidean, Geodesic, Haversine, Length, Rhumb};
